@@ -335,7 +335,8 @@ func (h *iheap) Pop() interface{} {
 // heap implementations that are both correct), so the trace is
 // layout-independent: Pop must return the minimum of a model multiset, Remove(i)
 // must return some element of it, and the final drain must be sorted and
-// exhaust the model.
+// exhaust the model. No element value is printed: after a Remove the two
+// (valid) heaps may legitimately hold different multisets.
 func heapScript(ops []int) string {
 	h := &iheap{}
 	var model []int
@@ -368,9 +369,10 @@ func heapScript(ops []int) string {
 			if h.Len() > 0 {
 				want := minOf()
 				v := heap.Pop(h).(int)
-				fmt.Fprintf(&out, "p%d", v)
-				if v != want || !drop(v) {
-					out.WriteString("!notmin")
+				if v == want && drop(v) {
+					out.WriteString("p+")
+				} else {
+					fmt.Fprintf(&out, "p!%d(min %d)", v, want)
 				}
 			}
 		case 3:
@@ -394,9 +396,10 @@ func heapScript(ops []int) string {
 	for h.Len() > 0 {
 		want := minOf()
 		v := heap.Pop(h).(int)
-		fmt.Fprintf(&out, "%d,", v)
-		if v != want || !drop(v) {
-			out.WriteString("!notmin")
+		if v == want && drop(v) {
+			out.WriteString("+")
+		} else {
+			fmt.Fprintf(&out, "!%d(min %d)", v, want)
 		}
 	}
 	fmt.Fprintf(&out, "|%d", len(model))
@@ -455,9 +458,10 @@ func heapScript(ops: []int) => string {
 			if h.Len() > 0 {
 				want := heapMin()
 				v := heap.Pop(h).(int)
-				out += "p" + I(i64(v))
-				if v != want || !heapDrop(v) {
-					out += "!notmin"
+				if v == want && heapDrop(v) {
+					out += "p+"
+				} else {
+					out += "p!" + I(i64(v)) + "(min " + I(i64(want)) + ")"
 				}
 			}
 		case 3:
@@ -481,9 +485,10 @@ func heapScript(ops: []int) => string {
 	for h.Len() > 0 {
 		want := heapMin()
 		v := heap.Pop(h).(int)
-		out += I(i64(v)) + ","
-		if v != want || !heapDrop(v) {
-			out += "!notmin"
+		if v == want && heapDrop(v) {
+			out += "+"
+		} else {
+			out += "!" + I(i64(v)) + "(min " + I(i64(want)) + ")"
 		}
 	}
 	out += "|" + I(i64(len(heapModel)))
